@@ -107,10 +107,10 @@ func (p *Prog) Rel(pos token.Pos) string {
 // Pkg returns the repository package with the given path relative to the
 // module root ("core/types") or a full import path.
 func (p *Prog) Pkg(path string) *packages.Package {
-	if pk, ok := p.All[path]; ok {
+	if pk, ok := p.All[RepoMod+"/"+path]; ok {
 		return pk
 	}
-	if pk, ok := p.All[RepoMod+"/"+path]; ok {
+	if pk, ok := p.All[path]; ok {
 		return pk
 	}
 	return nil
